@@ -68,6 +68,22 @@ def inv_block(case):
             v.append(violation("below_lower_bound", {"P": P, "score": s0, "bound": lb}, **where))
         if dist in ("tv", "hellinger") and s0 > 1 + tol:
             v.append(violation("above_one", {"P": P, "score": s0}, **where))
+        # the storage type of the predictions is not part of the partition: a hard partition given as an integer or boolean indicator
+        # matrix (and any matrix in single precision) has the score of its float64 copy
+        variants = [("float32", P.astype(np.float32), 1e-5)]
+        if np.all((P == 0) | (P == 1)):
+            variants += [("int64", P.astype(np.int64), 0.0), ("bool", P.astype(bool), 0.0), ("int8", P.astype(np.int8), 0.0)]
+        for dname, Pv, extra in variants:
+            nev += 1
+            try:
+                with np.errstate(all="ignore"):
+                    sv = float(g(Pv, A))
+                    _, Gv = g(Pv.copy(), A, return_grad=True)
+                okv = abs(sv - s0) <= tol + extra * max(1.0, abs(s0)) and np.shape(Gv) == P.shape and np.isfinite(np.asarray(Gv, dtype=float)).all()
+            except Exception as e:  # noqa
+                okv, sv = False, repr(e)[:150]
+            if not okv:
+                v.append(violation("score_depends_on_the_dtype_of_the_predictions", {"P": P, "dtype": dname, "float64_score": s0, "got": sv}, **where))
         all_equal = bool(np.all(P == P[0]))
         if all_equal and abs(s0 - lb) > tol + (1e-7 if dist == "mmd" else 0.0):
             v.append(violation("nonzero_for_sample_independent_predictions", {"P": P, "score": s0, "bound": lb}, **where))
